@@ -375,7 +375,7 @@ fn main() {
         let passed_menu: Vec<Option<u32>> = if mode == GameMode::Catch {
             vec![None]
         } else if ctx.quick() {
-            vec![None, Some(1), Some(n + 1)]
+            vec![None, Some(0), Some(1), Some(n + 1)]
         } else {
             vec![None, Some(0), Some(1), Some(n), Some(n + 1)]
         };
